@@ -1,6 +1,8 @@
 package metadata
 
 import (
+	"time"
+
 	"github.com/trustbloc/sidetree-go/pkg/api/operation"
 	"github.com/trustbloc/sidetree-go/pkg/api/protocol"
 	"github.com/trustbloc/sidetree-go/pkg/document"
@@ -61,4 +63,107 @@ func Harness_C18_OperationOrder() {
 	for i := 0; i+1 < len(gotU); i++ {
 		verifrt.Assert(gotU[i].TransactionTime <= gotU[i+1].TransactionTime, "unpublished operations are sorted by transaction time")
 	}
+}
+
+func c18OptAtom(tag string) string {
+	if verifrt.Choose(tag+"-set", 2) == 1 {
+		return verifrt.AnyAtom(tag)
+	}
+	return ""
+}
+
+func c18Str(m document.Metadata, key string) (string, bool) {
+	v, ok := m[key]
+	if !ok {
+		return "", false
+	}
+	s, isStr := v.(string)
+	return s, isStr
+}
+
+// Harness_C18_MetadataFields: every metadata item is reported as given, for every (created, updated) pair, every
+// presence pattern of commitments / anchor origin / version id / canonical and equivalent id, both flags.
+func Harness_C18_MetadataFields() {
+	created, updated := verifrt.AnyU64("created"), verifrt.AnyU64("updated")
+	rm := &protocol.ResolutionModel{Doc: make(document.Document), CreatedTime: created, UpdatedTime: updated,
+		RecoveryCommitment: c18OptAtom("rc"), UpdateCommitment: c18OptAtom("uc"), VersionID: c18OptAtom("version"),
+		Deactivated: verifrt.AnyBool("deactivated")}
+	hasOrigin := verifrt.Choose("origin-set", 2) == 1
+	origin := verifrt.AnyAtom("origin")
+	if hasOrigin {
+		rm.AnchorOrigin = origin
+	}
+	published := verifrt.AnyBool("published")
+	info := protocol.TransformationInfo{document.PublishedProperty: published}
+	canonical, equivalent := verifrt.AnyAtom("canonical"), verifrt.AnyAtom("equivalent")
+	hasCanonical, hasEquivalent := verifrt.Choose("canonical-set", 2) == 1, verifrt.Choose("equivalent-set", 2) == 1
+	if hasCanonical {
+		info[document.CanonicalIDProperty] = canonical
+	}
+	if hasEquivalent {
+		info[document.EquivalentIDProperty] = []string{equivalent}
+	}
+	md, err := New().CreateDocumentMetadata(rm, info)
+	if err != nil {
+		verifrt.Fail("metadata creation fails on a well-formed state")
+		return
+	}
+	verifrt.Reach("fields")
+	method, ok := md[document.MethodProperty].(document.Metadata)
+	if !ok {
+		verifrt.Fail("method metadata missing")
+		return
+	}
+	nDoc, nMethod := 1, 1
+	p, isBool := method[document.PublishedProperty].(bool)
+	verifrt.Assert(isBool && p == published, "the published flag is reported as given")
+	s, has := c18Str(method, document.RecoveryCommitmentProperty)
+	verifrt.Assert(has == (rm.RecoveryCommitment != "") && s == rm.RecoveryCommitment, "the recovery commitment is reported as given")
+	if has {
+		nMethod++
+	}
+	s, has = c18Str(method, document.UpdateCommitmentProperty)
+	verifrt.Assert(has == (rm.UpdateCommitment != "") && s == rm.UpdateCommitment, "the update commitment is reported as given")
+	if has {
+		nMethod++
+	}
+	s, has = c18Str(method, document.AnchorOriginProperty)
+	verifrt.Assert(has == hasOrigin && (!has || s == origin), "the anchor origin is reported as given")
+	if has {
+		nMethod++
+	}
+	verifrt.Assert(len(method) == nMethod, "method metadata has no further members (operation lists are off by default)")
+
+	d, hasD := md[document.DeactivatedProperty]
+	verifrt.Assert(hasD == rm.Deactivated && (!hasD || d == true), "the deactivated flag is reported exactly for deactivated states")
+	if hasD {
+		nDoc++
+	}
+	s, has = c18Str(md, document.CanonicalIDProperty)
+	verifrt.Assert(has == hasCanonical && (!has || s == canonical), "the canonical id is reported as given")
+	if has {
+		nDoc++
+	}
+	eq, hasE := md[document.EquivalentIDProperty].([]string)
+	verifrt.Assert(hasE == hasEquivalent && (!hasE || (len(eq) == 1 && eq[0] == equivalent)), "the equivalent ids are reported as given")
+	if hasE {
+		nDoc++
+	}
+	s, has = c18Str(md, document.CreatedProperty)
+	verifrt.Assert(has == published && (!has || s == time.Unix(int64(created), 0).UTC().Format(time.RFC3339)), "the created time of a published state is reported as given")
+	if has {
+		nDoc++
+	}
+	s, has = c18Str(md, document.VersionIDProperty)
+	verifrt.Assert(has == (rm.VersionID != "") && s == rm.VersionID, "the version id is reported as given")
+	if has {
+		nDoc++
+	}
+	s, has = c18Str(md, document.UpdatedProperty)
+	verifrt.Assert(has == (rm.VersionID != "" && updated > 0) && (!has || s == time.Unix(int64(updated), 0).UTC().Format(time.RFC3339)),
+		"the updated time of a versioned state is reported as given, whatever its relation to the created time")
+	if has {
+		nDoc++
+	}
+	verifrt.Assert(len(md) == nDoc, "document metadata has no further members")
 }
